@@ -125,6 +125,12 @@ def stage_merge(res, base, ld, rd, strategies, nb):
         res['merged'] = {'ok': clean(m)}
     except Exception as e:
         res['merged'] = exc_info(e)
+    # the decision list is a value: applying it must not change it, and applying it again must give the same document
+    try:
+        res['decisions_after'] = decisions_json(ds)
+        res['merged_again'] = {'ok': clean(apply_decisions(copy.deepcopy(base), ds))}
+    except Exception as e:
+        res['merged_again'] = exc_info(e)
 
 def as_nb(x):
     import nbformat
